@@ -51,3 +51,39 @@ PROPS["C06"] = {
         "a result is attributed to the link frame taken last from the device before the poll returned (the receivers read no further than the frame they report on)",
     ],
 }
+
+PROPS["C19"] = {
+    "scenario": "S-LINK(memory)",
+    "level": "exploration",
+    "runs": {"quick": 6000, "thorough": 200000},
+    "crash_clause": None,
+    "rule": "one run = one seeded tape: link kind, polling schedule variant, a long traffic history of 20..420 (thorough up to 20000) episodes as in C06 (clean packets incl. 256+/4096-frame ones, damaged packets, abandoned start frames announcing up to 4096 frames), 15% of runs clean-only; SUT-domain heap bytes measured after every poll with the returned value dropped first, and the largest single SUT allocation during each poll. Every run is non-trivial (it holds a partial packet between polls or crosses a boundary after a multi-frame packet); distinct = distinct event-log hashes.",
+    "state_measure": "abstract state (sampled every 64 polls) = bucketed bytes held above fresh x bucketed announcement in flight x bucketed units in flight",
+    "probes": ["partial_packet_held_between_polls", "boundary_after_multi_frame", "abandoned_giant_announcement", "history_over_1000_frames",
+               "held_over_4k_for_large_packet", "fault_zero_length_frame", "fault_interrupted_packet", "boundaries"],
+    "components": REAL_LINK + ["harness: counting global allocator with per-allocation domain tags (SUT while inside a ross-protocol call, SIM in devices/harness); realloc modelled as allocate-copy-free"],
+    "assumptions": COMMON_ASSUMPTIONS + [
+        "bounds: between polls live <= fresh + 256 B + 96 B x A, A = largest frame count announced by any start frame taken since the last boundary (model-free upper bound on the packet in flight); after Ok(_) or Err(BuilderError(_)) live <= fresh; no single allocation during a poll above max(1 KiB, 96 B x A, 4 x returned payload)",
+        "runs in which the receiver panics or blocks are C06's subject and are counted as foreign, not as C19 violations",
+    ],
+}
+
+PROPS["C14"] = {
+    "scenario": "S-SEND",
+    "level": "fault_enumeration",
+    "runs": {"quick": 60000, "thorough": 2000000},
+    "crash_clause": "C14.exact",
+    "rule": "enumeration: for each packet of a fixed list (quick: 0,3,8,9,14,15,22 bytes; thorough: 40 sizes 0..70) and each link, after a dry run that counts the device calls, every single fault position: USART a would-block burst (1,2,50) before every byte; CAN a would-block burst before and a displaced-frame report at every transmit; serial port a hard error (3 kinds), every short-write size 1..14 and an Interrupted at every write call, an error (3 kinds) at every flush call. Exploration: seeded runs with random packets (up to 28672 bytes) and random combinations/rates of the same reactions. Non-trivial = a reaction actually fired or the packet is multi-frame. Distinct = distinct event-log hashes among those. The enumeration is exhaustive over its stated list only.",
+    "state_measure": "not measured for this scenario (single call per run)",
+    "probes": ["fired_would_block", "fired_short_write", "fired_interrupted", "fired_hard_write_error", "fired_flush_error",
+               "fired_displaced_frame", "multi_frame_packet", "frame_id_over_255", "sent_ok", "sent_err_reported"],
+    "components": [
+        "real: /repo/src/interface/{can,usart,serial}.rs try_send_packet; Packet::to_frames; Frame::to_usart_frame / to_bxcan_frame; cobs",
+        "real (as definition of the expected stream): the library's own fragmenter and frame encoders (their layout is C08-C10's subject)",
+        "stub: CAN controller (bxcan::Can substitute), USART peripheral, OS serial port",
+    ],
+    "assumptions": COMMON_ASSUMPTIONS + [
+        "an Interrupted write may be retried or reported; a missing flush call is not flagged (only a failed flush that is ignored)",
+        "any Err result counts as 'returned as an error' for write/flush failures and displaced frames (the variant is not checked)",
+    ],
+}
